@@ -84,8 +84,66 @@ func (g *Gen) typeFact(v Val) string {
 	return "true"
 }
 
+// havocCaptured: a closure passed to a callee may be invoked by it any number of times, so the
+// variables it captured by reference may have any value afterwards (the caller's contract or a
+// stated iterator lemma says which).
+func (a *Act) havocCaptured(ctx *blockCtx, args []Val) {
+	g := a.g
+	for _, av := range args {
+		ci, ok := a.closures[av.T]
+		if !ok {
+			continue
+		}
+		// when the closure is under contract only the cells named by its modifies clause can change
+		var allowed map[string]bool
+		if cs, ok := g.w.funcSpecs[funcKey(ci.fn)]; ok && cs.HasMod {
+			allowed = map[string]bool{}
+			for _, m := range cs.Modifies {
+				m = strings.TrimSpace(m)
+				if strings.HasPrefix(m, "cell(") && strings.HasSuffix(m, ")") {
+					allowed[strings.TrimSpace(m[5:len(m)-1])] = true
+				}
+			}
+		}
+		for bi, bnd := range ci.bindings {
+			if allowed != nil && bi < len(ci.fn.FreeVars) && !allowed[ci.fn.FreeVars[bi].Name()] {
+				continue
+			}
+			if bnd.S != "Ref" || bnd.G == nil {
+				continue
+			}
+			pt, ok := bnd.G.Underlying().(*types.Pointer)
+			if !ok {
+				continue
+			}
+			if nt, ok := types.Unalias(pt.Elem()).(*types.Named); ok {
+				if st, ok := nt.Underlying().(*types.Struct); ok {
+					for i := 0; i < st.NumFields(); i++ {
+						hv, s := g.w.fieldHeap(namedKey(nt), st, i)
+						ctx.st[hv] = "(store " + g.stateGet(ctx.st, hv) + " " + bnd.T + " " + g.fresh("captured", s) + ")"
+					}
+					continue
+				}
+			}
+			s := g.w.sortOf(pt.Elem())
+			hv := g.w.cellHeap(s)
+			nv := Val{T: g.fresh("captured", s), S: s, G: pt.Elem()}
+			if f := g.typeFact(nv); f != "true" {
+				g.fact(f)
+			}
+			ctx.st[hv] = "(store " + g.stateGet(ctx.st, hv) + " " + bnd.T + " " + nv.T + ")"
+			a.nameState(ctx, hv)
+		}
+	}
+}
+
 func (a *Act) callWithArgs(ctx *blockCtx, c *ssa.CallCommon, args []Val, fnv Val, resT types.Type, b *ssa.BasicBlock, idx int, pos token.Pos) (Val, []Val) {
 	g := a.g
+	if len(a.closures) > 0 {
+		if _, isB := c.Value.(*ssa.Builtin); !isB {
+			a.havocCaptured(ctx, args)
+		}
+	}
 	if resT == nil {
 		resT = c.Signature().Results()
 		if tup := c.Signature().Results(); tup.Len() == 1 {
@@ -470,6 +528,17 @@ func (e *Env) resolveMod(m string) (hv string, obj string, err error) {
 			}
 			hv, _, _ := g.w.mapHeap(v.G.Underlying().(*types.Map))
 			return hv, v.T, nil
+		}
+		if x.Fn == "cell" && len(x.Args) == 1 {
+			// cell(v): the memory cell of a captured / address-taken variable v
+			if id, ok := x.Args[0].(EIdent); ok {
+				if v, ok := e.vars[id.Name]; ok && v.S == "$addr" && v.G != nil {
+					if pt, ok := v.G.Underlying().(*types.Pointer); ok {
+						return g.w.cellHeap(g.w.sortOf(pt.Elem())), v.T, nil
+					}
+				}
+			}
+			return "", "", fmt.Errorf("cell(v) needs a captured variable")
 		}
 		if x.Fn == "global" && len(x.Args) == 1 {
 			// global(pkg.Var)
